@@ -121,6 +121,10 @@ def gen_channel_data(rng, kind, allow_empty=True):
     n = rng.randint(0 if allow_empty else 1, 6) if rng.random() < 0.9 else rng.randint(50, 120)
     form = kind['form']
     d = dict(kind)
+    if form == 'nd' and rng.random() < 0.004:
+        # beyond 1 MiB of raw data: any block / buffer size of the write path is crossed
+        size = np.dtype(kind['dtype']).itemsize
+        n = rng.randint(int(1.05 * 2**20 / size), int(2.3 * 2**20 / size))
     if form == 'nd':
         t = DT_TO_T[kind['dtype']]
         d['hex'] = gen.gen_values(rng, t, n).hex()
